@@ -4,6 +4,7 @@ import concurrent.futures as cf
 import itertools
 import json
 import os
+import subprocess
 import time
 from gen_check import *  # noqa
 
@@ -212,13 +213,22 @@ def history_phase(ctx, bins, model, hists, depth_flags=None, depth_every=5):
     for hi, (h, recs) in enumerate(runs):
         for (prop, klass, text, ri) in classify_history(recs, fixed):
             findings.append({"prop": prop, "class": klass, "what": text, "history": h, "depth0": bool(recs[ri]["depth0"]), "step": slim(recs[ri]), "upto": recs[ri]["op_index"]})
+    # the residue of the killed updates (op noise): what the implementation left, and that the baseline file survived
+    residues = {}
+    for hi, (h, recs) in enumerate(runs):
+        for res in (recs[-1]["residues"] if recs else []):
+            for nm in res["left"]:
+                shape = re.sub(r"(\.tmp)[.\d]+$", r"\1.<numbers>", nm)
+                residues[shape] = residues.get(shape, 0) + 1
+            if not res["baseline_intact"]:
+                struct.append({"history": h, "what": "a `check --update-baseline` killed at aw:after_create_temp changed the baseline file"})
     nontriv = 0
     for h, recs in runs:
         if any(o["op"] == "update" or (o["op"] == "check" and o["flags"].get("u")) for o in h) and sum(1 for o in h if o["op"] == "edit") >= 1 \
                 and any(r["disk0"] for r in recs):
             nontriv += 1
     return {"histories": len(hists), "steps": len(recs_all), "spawns": spawns, "mismatches": mism, "structural": struct, "ff_bad": ffbad,
-            "ff_traces": len(fflines), "findings": findings, "nontrivial": nontriv, "wall": round(time.time() - t0, 1),
+            "ff_traces": len(fflines), "findings": findings, "nontrivial": nontriv, "wall": round(time.time() - t0, 1), "killed_update_residues": residues,
             "sample": [{"history": runs[i][0], "steps": [dict(slim(r), model=r.get("model")) for r in runs[i][1]][:4]} for i in range(min(2, len(runs)))]}
 
 
@@ -249,17 +259,27 @@ class BigProject:
     starting with '#': comments in Python (src/fNN.py, 0 code lines, passes), code in Rust (src/fNN.rs, fails).
     Class 'N' is an over-long Rust file whose name breaks the naming rule of src (src/FNNBad.rs): a directory
     scan reports a naming_convention violation at the same path, which a content entry grandfathers too.
+    Classes 'g' / 'k' are over-long files whose size differs from the one the baseline records: 'g' has GROWN since the
+    baseline was written (15 lines now, 12 recorded), 'k' has shrunk (12 now, 15 recorded); recorded is recorded: both are
+    known debt when their index is in the baseline, plain over-long files otherwise.
+    Class 'l' is a second name of an over-long file: the symlink legacy/fNN.rs -> ../src/fMM.rs (MM = the first over-long
+    regular file of the project; a plain 3-line file when there is none). Files below legacy/ have a content rule of their
+    own (max_lines = 1000), so the alias passes while the real name fails: one file, two mentions, two verdicts.
     Every file gets an old mtime (not racy-clean), so the in-memory SLOC cache is really used."""
     TWIN = "# generated line\n" * 12
     OLD = 1577836800
+    NOW_REC = {"g": ("O", "o"), "k": ("o", "O")}     # class -> (size now, size recorded in the baseline)
 
     def __init__(self, exe, sizes, baseline_idx, ff_cfg=False, wae=False, ghosts=0):
         self.exe = exe
         self.sb = Sandbox(prefix="sgv-c11-")
         self.n = len(sizes)
-        self.paths = [("./src/f%02d.py" % i) if c == "y" else (("./src/F%02dBad.rs" % i) if c == "N" else "./src/f%02d.rs" % i) for i, c in enumerate(sizes)]
+        self.paths = [("./src/f%02d.py" % i) if c == "y" else (("./src/F%02dBad.rs" % i) if c == "N" else (("./legacy/f%02d.rs" % i) if c == "l" else "./src/f%02d.rs" % i))
+                      for i, c in enumerate(sizes)]
         self.ff_cfg = ff_cfg
         cfg = ['version = "2"', "[scanner]", 'exclude = [".sloc-guard*"]', "[content]", "max_lines = 10", "warn_threshold = 0.8", 'extensions = ["rs", "py"]']
+        if "l" in sizes:
+            cfg += ["[[content.rules]]", 'pattern = "legacy/**"', "max_lines = 1000"]
         if "N" in sizes:
             cfg += ["[[structure.rules]]", 'scope = "src"', 'file_naming_pattern = "^[a-z0-9_]+\\\\.(rs|py)$"']
         if ff_cfg:
@@ -273,10 +293,31 @@ class BigProject:
             if ch == "e":
                 os.makedirs(os.path.join(self.sb.proj, p))
                 continue
-            self.resize(p, ch)
+            if ch != "l":
+                self.resize(p, ch)
+        targets = [i for i, c in enumerate(sizes) if c in "oOgkN"]
+        for i, (p, ch) in enumerate(zip(self.paths, sizes)):
+            if ch != "l":
+                continue
+            fp = os.path.join(self.sb.proj, p)
+            os.makedirs(os.path.dirname(fp), exist_ok=True)
+            if targets:
+                tp = self.paths[targets[0]]
+                os.symlink("../" + tp[2:], fp)
+                self.res[p] = dict(self.res[tp], path=p, status="P", limit=1000)
+            else:
+                self.resize(p, "u")
+                self.res[p]["limit"] = 1000
         self.bl = None
         if baseline_idx is not None:
-            self.bl = {self.paths[i]: ("C", self.res[self.paths[i]]["code"], self.res[self.paths[i]]["hash"]) for i in baseline_idx}
+            self.bl = {}
+            for i in baseline_idx:
+                p = self.paths[i]
+                if sizes[i] in self.NOW_REC:        # recorded with the size the file had when the baseline was written
+                    n = SIZE[self.NOW_REC[sizes[i]][1]]
+                    self.bl[p] = ("C", n, hashlib.sha256(body(p, n).encode()).hexdigest())
+                else:
+                    self.bl[p] = ("C", self.res[p]["code"], self.res[p]["hash"])
             # entries of files that have been deleted since the baseline was written: a directory scan sees them gone
             for g in range(ghosts):
                 self.bl["src/gone%02d.rs" % g] = ("C", 30, "")
@@ -289,7 +330,7 @@ class BigProject:
         if ch in "yr":
             text, n = self.TWIN, (0 if ch == "y" else 12)
         else:
-            n = SIZE["o" if ch == "N" else ch]
+            n = SIZE["o" if ch == "N" else (self.NOW_REC[ch][0] if ch in self.NOW_REC else ch)]
             text = body(p, n)
         fp = self.sb.write(p, text)
         os.utime(fp, (self.OLD, self.OLD))
@@ -364,7 +405,7 @@ def trace_case(exe, sizes, bl_idx, orders, threads_list, reps, ff_cfg, wae, wo, 
             want = sorted((p, pj.res[p]["status"], pj.res[p]["code"]) for p in (files if files is not None else pj.paths) if p in pj.res)
             got = sorted((r["path"], r["status"], r["code"]) for r in R if r["kind"] in ("n", "c"))
             eval_ok = (want == got)
-            eval_diff = [x for x in got if x not in want][:2]
+            eval_diff = {"reported but not expected": [x for x in got if x not in want][:2], "expected but not reported": [x for x in want if x not in got][:2]}
             for th in threads_list:
                 for _ in range(reps):
                     rc, obs, raw = pj.run(True, files, th, wae, wo, ratchet, update)
@@ -491,6 +532,13 @@ def replay_file(ctx, path, prop):
         r = backslash_phase(ctx, bins, model)
         for f in r["findings"] + r["mismatches"]:
             print("ORACLE", f.get("prop"), f["what"], f.get("trace"))
+    elif j.get("trace") and j["trace"].get("route"):
+        t = j["trace"]
+        recs, fs, _ = sibling_ratchet_case(bins["sgcli"], t["route"], {v: k for k, v in RM.items()}[t["ratchet"]], t["sibling_severity"], t["threads"], t["ratchet_by_config"])
+        for r in recs:
+            print("step", r["note"], r["flags"], "exit", r["exit"], [x["path"] + ":" + x["kind"] + ":" + x["status"] for x in r["obs"]], "entries", sorted(r["disk0"] or {}), "->", sorted(r["disk1"] or {}), "stale", r["stale_reported"])
+        for f in fs:
+            print("ORACLE", f["prop"], f["what"])
     elif j.get("trace") and j["trace"].get("shape"):
         t = j["trace"]
         recs, fs, _ = big_ratchet_case(bins["sgcli"], ctx.rng, t["n"], t.get("threads", 4), t["fixed_idx"])
@@ -599,7 +647,8 @@ def error_entry_phase(ctx, bins, model, quick=True):
     unrecorded violations, every order, fail-fast by flag and by config: an unrecorded violation must still
     fail the run and be reported Failed when it was evaluated."""
     exe = bins["sgcli"]
-    cases = [("eo", None), ("eoo", [1]), ("oeo", [0]), ("euo", None)] + ([] if quick else [("eoow", [1, 2]), ("eeo", None), ("woe", None), ("eoou", [2])])
+    # (g: a recorded file that has grown since the baseline was written - still known debt, never a reason to stop)
+    cases = [("eo", None), ("eoo", [1]), ("oeo", [0]), ("euo", None), ("go", [0]), ("geo", [0]), ("gko", [0, 1])] + ([] if quick else [("eoow", [1, 2]), ("eeo", None), ("woe", None), ("eoou", [2])])
     traces, spawns, findings = [], 0, []
     for i, (sizes, bl) in enumerate(cases):
         perms = list(itertools.permutations(range(len(sizes))))
@@ -781,6 +830,259 @@ def subdir_ratchet_phase(ctx, bins, model, k):
         if len(f) < 4 or (f[0], f[1], f[2]) != (st, str(r["exit"]), w_bl(r["disk1"])):
             mism.append({"what": "run from a sub-directory, step '%s': statuses %s exit %s file %s; model %s" % (r["note"], st, r["exit"], sorted(r["disk1"] or {}), mo), "trace": r["shape"]})
     return {"steps": len(allrecs), "findings": findings, "mismatches": mism, "spawns": spawns}
+
+
+# ------------------------------------------------------------------ a custom-named baseline file inside the scanned tree (C09, known finding D86)
+
+def custom_baseline_phase(ctx, bins, model):
+    """[structure] max_files = 2; the root holds .sloc-guard.toml and main.rs (at the limit). `check --baseline bl.json
+    --update-baseline` writes bl.json INTO the root; only the default file name is hidden from the scan
+    (state::is_own_state_entry), so the next `check --baseline bl.json` counts 3 files. The same with the default name
+    (.sloc-guard-baseline.json) and with bl.json outside the scanned tree must round-trip: these are oracle legs, not known."""
+    findings, mism, steps = [], [], 0
+
+    def leg(name, where):
+        nonlocal steps
+        sb = Sandbox(prefix="sgv-cbl-")
+        try:
+            sb.write(".sloc-guard.toml", 'version = "2"\n[content]\nmax_lines = 100\nextensions = ["rs"]\n[structure]\nmax_files = 2\n')
+            sb.write("main.rs", "fn main() {}\n")
+            blp = os.path.join(sb.proj if where == "in" else sb.base, name)
+            arg = name if where == "in" else blp
+            base = ["check", "--format", "json", "--color", "never", "--no-sloc-cache", "--baseline", arg]
+            out = []
+            for extra in (["--update-baseline"], [], ["--update-baseline"], []):
+                rc, so, err = sb.run(bins["sgcli"], base + extra)
+                steps += 1
+                try:
+                    obs, _ = parse_json_results(so)
+                except Exception:
+                    obs = []
+                out.append({"args": " ".join(base[:1] + base[6:] + extra), "exit": rc, "failed": [r["path"] + ":" + r["kind"] + ":%d" % r["code"] for r in obs if r["status"] == "F"],
+                            "file": sorted((_read_bl(blp) or {}).items())})
+            return out
+        finally:
+            sb.close()
+    for name, where, known in (("bl.json", "in", True), (BASELINE_FILE, "in", False), ("bl.json", "out", False)):
+        o = leg(name, where)
+        shape = {"config": "[structure] max_files = 2; root = {.sloc-guard.toml, main.rs}", "baseline_file": name, "baseline_inside_the_scanned_tree": where == "in", "runs": o}
+        u1, c1, u2, c2 = o
+        bad = []
+        if u1["exit"] == 0 and (c1["exit"] != 0 or c1["failed"]):
+            bad.append("roundtrip: `check --baseline %s` right after `--update-baseline` (exit 0, nothing to record) exits %d with %s failed" % (name, c1["exit"], c1["failed"]))
+        if u2["file"] != u1["file"]:
+            bad.append("update_idempotent: updating again without project changes: %s -> %s" % (u1["file"], u2["file"]))
+        for b in bad:
+            findings.append({"prop": "C09", "class": "K09_custom_baseline_in_tree" if known else None, "trace": shape, "what": b})
+        if known and not bad:
+            # the witness of the known finding no longer reproduces: say so (the entry must go)
+            mism.append({"what": "known finding K09_custom_baseline_in_tree no longer reproduces: %s" % o})
+    return {"steps": steps, "findings": findings, "mismatches": mism, "spawns": steps}
+
+
+# ------------------------------------------------------------------ two overlapping runs on one baseline file (C10, known finding D87)
+
+def overlapping_runs_phase(ctx, bins, model):
+    """Run A (`--ratchet auto`, no --update-baseline) loads the baseline {a.rs, b.rs} and is held just before its save
+    (hook SGV_SYNC_DIR at aw:start); run B (`--update-baseline new`) records the new violator c.rs and finishes; A is released
+    and writes its tightened copy {b.rs}: the entry of c.rs, which still violates and which A itself reported failed, is gone.
+    The load - tighten - save cycle of the baseline has no update lock (the history file has one: state::lock_for_update).
+    The sequential order of the same two runs (B then A, and A then B) is the oracle leg and must keep c.rs."""
+    findings, mism, steps = [], [], 0
+
+    def leg(overlap, a_first=False):
+        nonlocal steps
+        sb = Sandbox(prefix="sgv-ovl-")
+        try:
+            sb.write(".sloc-guard.toml", 'version = "2"\n[content]\nmax_lines = 10\nextensions = ["rs"]\n')
+            for f, n in (("a.rs", 12), ("b.rs", 12), ("c.rs", 3)):
+                sb.write(f, body(f, n))
+            sb.run(bins["sgcli"], cli_args({"u": "a"}))
+            d_start = read_disk(sb.proj)
+            sb.write("a.rs", body("a.rs", 3))        # resolved
+            sb.write("c.rs", body("c.rs", 14))       # new violator
+            sync = os.path.join(sb.base, "sync")
+            os.makedirs(sync)
+            a_args, b_args = cli_args({"b": True, "rc": "a"}), cli_args({"b": True, "u": "n"})
+            steps += 3
+            if overlap:
+                env = dict(sb.env, SGV_SYNC_DIR=sync, SGV_TAG="A", SGV_SYNC_POINTS="aw:start", RAYON_NUM_THREADS="1")
+                pa = subprocess.Popen([bins["sgcli"], *a_args], cwd=sb.proj, env=env, stdout=subprocess.DEVNULL, stderr=subprocess.DEVNULL)
+                t0 = time.time()
+                while not any(x.endswith(".at") for x in os.listdir(sync)) and time.time() - t0 < 20 and pa.poll() is None:
+                    time.sleep(0.01)
+                held = any(x.endswith(".at") for x in os.listdir(sync))
+                sb.run(bins["sgcli"], b_args)
+                d_mid = read_disk(sb.proj)
+                for x in os.listdir(sync):
+                    if x.endswith(".at"):
+                        open(os.path.join(sync, ".".join(x.split(".")[:2]) + ".go"), "w").close()
+                try:
+                    pa.wait(timeout=30)
+                except subprocess.TimeoutExpired:
+                    pa.kill()
+                    held = False
+            else:
+                held = True
+                for args in ((a_args, b_args) if a_first else (b_args, a_args)):
+                    sb.run(bins["sgcli"], args)
+                d_mid = None
+            d_end = read_disk(sb.proj)
+            rc, out, _ = sb.run(bins["sgcli"], cli_args({"b": True}))
+            return {"held": held, "start": sorted(d_start or {}), "after_B": sorted(d_mid or {}) if d_mid is not None else None, "end": sorted(d_end or {}), "check_exit": rc}
+        finally:
+            sb.close()
+    shape = {"shape": "baseline {a.rs, b.rs}; a.rs fixed, c.rs grows over the limit; A = `check --baseline F --ratchet auto`, B = `check --baseline F --update-baseline new`"}
+    for overlap, a_first, known in ((True, False, True), (False, False, False), (False, True, False)):
+        o = leg(overlap, a_first)
+        tr = dict(shape, schedule="A loads; B runs to completion; A saves" if overlap else ("A; B" if a_first else "B; A"), observed=o)
+        if overlap and not o["held"]:
+            mism.append({"what": "overlapping runs: run A never reached aw:start (hook missing?)", "trace": tr})
+            continue
+        lost = "c.rs" not in o["end"]
+        if lost:
+            findings.append({"prop": "C10", "class": "K10_overlapping_runs_lost_update" if known else None, "trace": tr,
+                             "what": "stale_only_if_evaluated_and_resolved: the entry of c.rs (recorded by run B, still over the limit) is gone after the auto-ratchet run A (%s): %s -> %s" % (
+                                 tr["schedule"], o["after_B"] or o["start"], o["end"])})
+        elif known:
+            mism.append({"what": "known finding K10_overlapping_runs_lost_update no longer reproduces", "trace": tr})
+        if not overlap and (o["end"] != ["b.rs", "c.rs"] or o["check_exit"] != 0):
+            findings.append({"prop": "C10", "class": None, "trace": tr, "what": "subset: sequential runs %s leave %s (expected b.rs, c.rs), check exit %d" % (tr["schedule"], o["end"], o["check_exit"])})
+    return {"steps": steps, "findings": findings, "mismatches": mism, "spawns": steps}
+
+
+# ------------------------------------------------------------------ structure results at the path of a file that was not content-checked (C10)
+
+def _git(sb, *a):
+    return subprocess.run(["git", *a], cwd=sb.proj, env=dict(sb.env), stdout=subprocess.PIPE, stderr=subprocess.PIPE, timeout=60)
+
+
+def sibling_ratchet_case(exe, route, mode, severity, threads, by_cfg=False):
+    """Recorded over-long files src/*_rec.rs that lack the sibling a [[structure.rules]] siblings rule asks for (severity warn
+    or error): a directory scan reports a missing_sibling result AT THE PATH OF EACH SUCH FILE, also in a run whose file loop
+    did not evaluate the file's line count:
+      route 'ff'   : new, unrecorded violators stop the fail-fast loop (one worker; they are first and last in creation order
+                     and in the middle by name, so whatever the scan order some recorded file comes after the first of them);
+      route 'diff' : `--diff HEAD~1` with only src/c.rs changed since that commit.
+    An entry whose file was not content-checked in this run was not evaluated: the ratchet must leave it alone.
+    Returns (records, findings, spawns)."""
+    sb = Sandbox(prefix="sgv-sib-")
+    recs, findings, spawns = [], [], 0
+    try:
+        cfg = ['version = "2"', "[scanner]", 'exclude = [".sloc-guard*"]', "[content]", "max_lines = 10", "warn_threshold = 0.8", 'extensions = ["rs"]',
+               "[[structure.rules]]", 'scope = "src"', 'siblings = [{ match = "*_rec.rs", require = "{stem}_tests.rs", severity = "%s" }]' % severity]
+        if by_cfg:
+            cfg += ["[baseline]", 'ratchet = "%s"' % RM[mode]]
+        sb.write(".sloc-guard.toml", "\n".join(cfg) + "\n")
+        texts = {}
+
+        def put(rel, n):
+            texts[rel] = body(rel, n)
+            sb.write(rel, texts[rel])
+        news = ["src/b5_new.rs", "src/y5_new.rs"]
+        recd = ["src/a0_rec.rs", "src/a1_rec.rs", "src/z0_rec.rs", "src/z1_rec.rs"]
+        put(news[0], 3)
+        for f in recd:
+            put(f, 12)
+        put("src/c.rs", 3)
+        put(news[1], 3)
+        shape = {"route": route, "ratchet": RM[mode], "ratchet_by_config": by_cfg, "sibling_severity": severity, "threads": threads,
+                 "shape": "src/{a0,a1,z0,z1}_rec.rs (12 lines, limit 10) recorded and lacking the sibling {stem}_tests.rs a siblings rule (severity %s) asks for; " % severity +
+                          ("src/b5_new.rs and src/y5_new.rs grow to 14 lines (not recorded); `check --baseline --ratchet %s --fail-fast .`, one worker" % RM[mode] if route == "ff" else
+                           "git: commit; only src/c.rs changes; commit; `check --baseline --ratchet %s --diff HEAD~1 .`" % RM[mode])}
+
+        def run(fl, extra, note):
+            nonlocal spawns
+            d0 = read_disk(sb.proj)
+            spawns += 1
+            rc, out, err = sb.run(exe, cli_args(fl) + extra + ["."], env={"RAYON_NUM_THREADS": str(threads)})
+            d1 = read_disk(sb.proj)
+            try:
+                obs, _ = parse_json_results(out)
+            except Exception:
+                obs = []
+            for r in obs:
+                f = norm_key(r["path"])
+                r["hash"] = hashlib.sha256(texts[f].encode()).hexdigest() if (f in texts and r["kind"] in ("n", "c")) else ""
+            rec = {"note": note, "flags": dict(fl, **({"rg": mode} if by_cfg and fl.get("b") else {})), "obs": obs, "rp": [pre(r) for r in obs], "disk0": d0, "disk1": d1, "exit": rc,
+                   "stale_reported": parse_stale(err), "dirs": ["src", "."], "shape": shape, "stderr": err[-400:]}
+            recs.append(rec)
+            return rec
+        u = run({"u": "a"}, [], "update all")
+        if set(view(u["disk1"]) or {}) != set(recd):
+            findings.append({"prop": "C10", "class": None, "trace": shape, "what": "sibling set-up: --update-baseline all recorded %s" % sorted(u["disk1"] or {}), "tie": True})
+            return recs, findings, spawns
+        rfl = {"b": True} if by_cfg else {"b": True, "rc": mode}
+        if route == "ff":
+            for f in news:
+                put(f, 14)
+            r = run(dict(rfl, ff=True), [], "fail-fast ratchet run")
+        else:
+            _git(sb, "init", "-q", ".")
+            _git(sb, "add", "-A")
+            _git(sb, "commit", "-q", "-m", "one")
+            put("src/c.rs", 4)
+            _git(sb, "add", "-A")
+            g = _git(sb, "commit", "-q", "-m", "two")
+            if g.returncode != 0:
+                findings.append({"prop": "C10", "class": None, "trace": shape, "what": "sibling set-up: git commit failed: %s" % g.stderr.decode()[-200:], "tie": True})
+                return recs, findings, spawns
+            r = run(dict(rfl), ["--diff", "HEAD~1"], "--diff HEAD~1 ratchet run")
+        # the content results of this run say which files had their lines counted
+        counted = {norm_key(x["path"]) for x in r["obs"] if x["kind"] in ("n", "c")}
+        still = {norm_key(x["path"]) for x in r["obs"] if x["status"] in "FG"}
+        d0, d1 = view(r["disk0"]) or {}, view(r["disk1"]) or {}
+        removed = sorted(set(d0) - set(d1))
+        reported = removed if mode == "a" else (r["stale_reported"] or [])
+        notev = [k for k in reported if k not in counted]
+        if notev:
+            findings.append({"prop": "C10", "class": None, "trace": shape,
+                             "what": "stale_only_if_evaluated_and_resolved: %s %s although the run did not count its lines (results at that path: %s) and it still has %d lines" % (
+                                 notev[0], "removed from the baseline" if mode == "a" else "reported stale", [x["kind"] + ":" + x["status"] for x in r["obs"] if norm_key(x["path"]) == notev[0]], 12)})
+        if mode != "a" and removed:
+            findings.append({"prop": "C10", "class": None, "trace": shape, "what": "subset: entries %s removed under ratchet %s" % (removed, RM[mode])})
+        fail = any(x["status"] == "F" for x in r["obs"])
+        genuine = [k for k in d0 if k in counted and k not in still]
+        if mode == "s" and r["exit"] == 1 and not fail and not genuine:
+            findings.append({"prop": "C10", "class": None, "trace": shape,
+                             "what": "strict_fails_only_for_resolved: exit 1 with no failed result and no entry that was evaluated and is resolved (stale reported: %s)" % r["stale_reported"]})
+        # the consequence: with the new violators gone a full check must still grandfather every recorded file
+        if route == "ff":
+            for f in news:
+                put(f, 3)
+        c = run({"b": True}, [], "full check afterwards")
+        lost = [x["path"] for x in c["obs"] if x["status"] == "F" and norm_key(x["path"]) in d0 and x["kind"] in ("n", "c")]
+        if lost:
+            findings.append({"prop": "C10", "class": None, "trace": shape,
+                             "what": "stale_only_if_evaluated_and_resolved: after the ratchet run the full check fails on %s, which was recorded before it and has not changed" % lost[0]})
+        return recs, findings, spawns
+    finally:
+        sb.close()
+
+
+def sibling_ratchet_phase(ctx, bins, model, quick=True):
+    allrecs, findings, spawns = [], [], 0
+    combos = [("ff", "a", "warn", 1, False), ("diff", "a", "warn", 1, False), ("ff", "s", "warn", 1, False), ("diff", "s", "warn", 4, True),
+              ("ff", "a", "error", 1, True), ("diff", "a", "error", 2, False), ("ff", "w", "warn", 1, False), ("diff", "w", "warn", 1, False)]
+    if not quick:
+        combos += [(r, m, sv, th, bc) for r in ("ff", "diff") for m in "aws" for sv in ("warn", "error") for th in (1, 4) for bc in (False, True)]
+    with cf.ThreadPoolExecutor(max_workers=8) as ex:
+        for recs, fs, sp in ex.map(lambda c: sibling_ratchet_case(bins["sgcli"], *c), combos):
+            allrecs += recs
+            findings += fs
+            spawns += sp
+    tie = [{"what": f["what"], "trace": f["trace"]} for f in findings if f.get("tie")]
+    findings = [f for f in findings if not f.get("tie")]
+    lines = ["step\t%s\t%s\t%s\t%s" % (w_flags(r["flags"]), w_results(r["rp"]), w_keys(r["dirs"]), w_bl(r["disk0"])) for r in allrecs]
+    mouts, merrs = run_sharded(model, lines)
+    if merrs:
+        raise CheckBroken("model driver failed: %s" % merrs[:1])
+    for r, mo in zip(allrecs, mouts):
+        st = "".join(x["status"] for x in r["obs"]) or "_"
+        f = mo.split("\t")
+        if len(f) < 4 or (f[0], f[1], f[2]) != (st, str(r["exit"]), w_bl(r["disk1"])):
+            tie.append({"what": "siblings rule, step '%s': statuses %s exit %s file %s; model %s" % (r["note"], st, r["exit"], sorted(r["disk1"] or {}), mo), "trace": r["shape"]})
+    return {"steps": len(allrecs), "findings": findings, "mismatches": tie, "spawns": spawns}
 
 
 # ------------------------------------------------------------------ paths that are not valid UTF-8 (C09 non-masking, C10)
